@@ -297,6 +297,14 @@ where
             return self.interp_array_into_1d(xs_1d, buffer_d);
         }
 
+        let expect = self.get_buffer_shape(xs.raw_dim());
+        assert!(
+            buffer.raw_dim() == expect,
+            "buffer has the wrong shape expected: {:?}, got: {:?}",
+            expect.slice(),
+            buffer.shape()
+        );
+
         // Perform interpolation for each index
         for (index, &x) in xs.indexed_iter() {
             let current_dim = index.clone().into_dimension();
@@ -331,6 +339,12 @@ where
     where
         Sq: Data<Elem = Sd::Elem>,
     {
+        assert!(
+            buffer.shape()[1..] == self.data.shape()[1..],
+            "buffer has the wrong shape expected: [_, {:?}], got: {:?}",
+            &self.data.shape()[1..],
+            buffer.shape()
+        );
         Zip::from(xs)
             .and(buffer.axis_iter_mut(Axis(0)))
             .fold_while(Ok(()), |_, &x, buf| {
